@@ -14,7 +14,7 @@ Nothing here depends on the spelling of a local: paths are field paths of the no
 """
 import re
 from lib.facts import is_node, last_seg, walk, path_of
-from lib.emit import Emitter
+from lib.emit import Emitter, parse_format, split_format
 
 OPERAND = "§"
 
@@ -35,9 +35,13 @@ def pat_variants(pat):
         return pat_variants(pat[1])
     if k in ("ppath", "pts", "pstruct"):
         segs = re.sub(r"<.*>", "", pat[1]).split("::")
-        if len(segs) >= 2:
-            return [(segs[-2], segs[-1])]
-        return [("", segs[-1])]
+        head = (segs[-2], segs[-1]) if len(segs) >= 2 else ("", segs[-1])
+        if k == "pts" and len(pat[2]) == 1:
+            # `FormulaOperator::Logic(LogicOp::Xor)`: the payload variant is part of the arm's identity
+            sub = [v for v in pat_variants(pat[2][0]) if v != ("*", "*") and v[0] != "" and len(v) == 2]
+            if sub:
+                return [head + (v,) for v in sub]
+        return [head]
     if k == "pwild":
         return [("*", "*")]
     if k == "pident":
@@ -45,6 +49,11 @@ def pat_variants(pat):
             return [("", pat[1])]
         return [("*", "*")]
     return []
+
+
+def variant_name(v):
+    """`Enum::Variant` of a variant key; for a nested key (`FormulaOperator::Logic(LogicOp::Xor)`) the innermost one"""
+    return "%s::%s" % (v[2] if len(v) == 3 else v[:2])
 
 
 class SpecEmitter(Emitter):
@@ -59,6 +68,9 @@ class SpecEmitter(Emitter):
         m = re.match(r"^\s*(?:Self|\w+)\s*::\s*(\w+)\s*$", txt or "")
         if m and m.group(1) in self.consts:
             return self.ev(self.consts[m.group(1)], depth)
+        m = re.match(r'^\s*(\w+)\s*\.\s*(concat|join)\s*\(\s*(?:"((?:[^"\\]|\\.)*)")?\s*\)\s*$', txt or "")
+        if m and m.group(1) in self.env:
+            return self.ev(["mcall", ["path", m.group(1)], m.group(2), None, [["str", m.group(3) or ""]] if m.group(2) == "join" else []], depth)
         return super().ev_tokens(txt, depth)
 
     # ---- two idioms the base reader does not model (kept here: the base class is shared with R7/R8)
@@ -130,6 +142,43 @@ class SpecEmitter(Emitter):
     def ev(self, e, depth=0):
         if is_node(e) and e[0] == "char":
             return [("lit", e[1])]
+        if is_node(e) and e[0] == "macro" and last_seg(e[1]) in ("format_args", "format"):
+            fmt, args = parse_format(e[3] if len(e) > 3 else e[2])
+            if fmt is not None and any(k == "named" for k, _ in split_format(fmt)):
+                # `format!(" {f} ")`: an inline named argument is the local of that name
+                out = []
+                for kind, v in split_format(fmt):
+                    if kind == "lit":
+                        out.append(("lit", v))
+                    elif kind == "hole" and v < len(args):
+                        out += self.ev_tokens(args[v], depth + 1)
+                    elif kind == "named":
+                        named = [a.split("=", 1)[1] for a in args if re.match(r"^\s*%s\s*=[^=]" % re.escape(v), a)]
+                        out += self.ev_tokens(named[0], depth + 1) if named else self.ev(["path", v], depth + 1)
+                    else:
+                        out.append(("unk", "hole"))
+                return out
+        if is_node(e) and e[0] == "mcall" and e[2] in ("join", "concat") and is_node(e[1]) and e[1][0] == "path" and e[1][1] in self.env:
+            # `let parts: Vec<String> = xs.iter().map(..).collect(); .. parts.join(SEP)`: the list was read at the `let`, the separator comes now
+            val = self.env[e[1][1]]
+            if len(val) == 1 and val[0][0] == "list" and not val[0][2]:
+                sep = self.ev(e[4][0], depth + 1) if e[2] == "join" and e[4] else []
+                return [("list", val[0][1], sep, val[0][3])]
+        if is_node(e) and e[0] == "mcall" and e[2] == "collect" and is_node(e[1]) and e[1][0] == "mcall" and e[1][2] == "map":
+            r = super().ev(["mcall", e, "join", None, [["str", ""]]], depth + 1)
+            if len(r) == 1 and r[0][0] == "list":
+                return r
+        if is_node(e) and e[0] == "mcall" and e[2] == "concat" and not e[4]:
+            # `[a, b, c].concat()` / `parts.concat()` == join("")
+            recv = e[1]
+            while is_node(recv) and recv[0] in ("ref", "paren"):
+                recv = recv[2] if recv[0] == "ref" else recv[1]
+            if is_node(recv) and recv[0] == "array":
+                out = []
+                for x in recv[1]:
+                    out += self.ev(x, depth + 1)
+                return out
+            return self.ev(["mcall", e[1], "join", None, [["str", ""]]], depth + 1)
         if is_node(e) and e[0] == "call":
             # the base reader GUESSES that an unknown function given a part of the node renders that part; here the text must be known exactly
             f = path_of(e[1]) or ""
@@ -150,10 +199,14 @@ class SpecEmitter(Emitter):
                         self.seen[p].append(v)
                 if p in self.choose:
                     want = self.choose[p]
+
+                    def fits(v):
+                        if v[1] != want[1] or v[0] not in ("", want[0]):
+                            return False
+                        return len(v) == 2 or (len(want) == 3 and v[2] == want[2])
                     arm = None
                     for a in e[2]:
-                        pv = pat_variants(a[0])
-                        if any(v[1] == want[1] and (v[0] in ("", want[0])) for v in pv):
+                        if any(fits(v) for v in pat_variants(a[0])):
                             arm = a
                             break
                     if arm is None:
@@ -162,12 +215,12 @@ class SpecEmitter(Emitter):
                                 arm = a
                                 break
                     if arm is None:
-                        return [("unk", "no arm for %s::%s" % want)]
+                        return [("unk", "no arm for %s::%s" % want[:2])]
                     saved = (dict(self.env), dict(self.ref))
                     self.bind_pattern(arm[0], p)
                     out = self.ev(arm[2], depth + 1)
                     self.env, self.ref = saved
-                    return [("site", p, "%s::%s" % want, out)]
+                    return [("site", p, variant_name(want), out)]
         return super().ev(e, depth)
 
 
